@@ -250,9 +250,13 @@ namespace bluetoe {
 
             device_pairing_status local_device_pairing_status() const
             {
-                return this->state() == details::sm_pairing_state::pairing_completed
-                    ? bluetoe::device_pairing_status::unauthenticated_key
-                    : bluetoe::device_pairing_status::no_key;
+                if ( this->state() != details::sm_pairing_state::pairing_completed )
+                    return bluetoe::device_pairing_status::no_key;
+
+                // numeric comparison is the only implemented method that authenticates the remote device
+                return algorithm_ == details::lesc_pairing_algorithm::numeric_comparison
+                    ? bluetoe::device_pairing_status::authenticated_key
+                    : bluetoe::device_pairing_status::unauthenticated_key;
             }
 
             std::pair< bool, details::uint128_t > find_key( std::uint16_t ediv, std::uint64_t rand ) const
